@@ -241,4 +241,7 @@ def jobs(tier):
         for adapt in (False, True):
             J.append(Job(f'legacy.{name}:{"sample_adapt" if adapt else "sample"}:recording_and_callback', lambda c, n=name, a=adapt: legacy_recording(c, n, a), 'B',
                          [f'{LS}:Sampler.sample', f'{LS}:Sampler.sample_adapt', f'{LS}:Sampler._create_Sample_object'], nnum=2))
+    # "for both Gibbs samplers": sample(N); sample(M) == sample(N+M), with and without warm-up, values as terms (contracts shared with C09)
+    from contracts import C09 as _c09
+    J += [j for j in _c09.jobs(tier) if j.id in ('HybridGibbs:continuation_and_warmup', 'legacy.Gibbs:stored_columns_and_continuation')]
     return J
